@@ -442,6 +442,12 @@ func normalizeDomainpart(domainpart string) (string, error) {
 		return domainpart, err
 	}
 
+	// The conversion can itself result in trailing label separators (other dots
+	// that are mapped to ".", empty A-labels, or more than one trailing dot in the
+	// input); strip those too, otherwise the result would not be canonical
+	// (parsing it again would yield a different JID).
+	domainpart = strings.TrimRight(domainpart, ".")
+
 	if l := len(domainpart); l < 1 || l > 1023 {
 		return domainpart, errInvalidDomainLen
 	}
